@@ -430,6 +430,11 @@ func TestCheck(t *testing.T) {
 		judgeBurst(r, t, bt)
 		return
 	}
+	var dc dcloseT
+	if mon.ReplayCase(&dc) && dc.DClose {
+		judgeDClose(r, t, dc)
+		return
+	}
 	var so slowtoT
 	if mon.ReplayCase(&so) && so.SlowTO {
 		for k := 0; k < 20; k++ { // the scenario depends on a random choice inside the call
@@ -440,6 +445,11 @@ func TestCheck(t *testing.T) {
 	if mon.ReplayCase(&sc) {
 		judge(r, t, sc)
 		return
+	}
+	for i, dc := range dcloseGrid() {
+		if r.Mine(i) {
+			judgeDClose(r, t, dc)
+		}
 	}
 	for i, so := range slowtoGrid(r.Quick()) {
 		if r.Mine(i) {
